@@ -205,6 +205,7 @@ def _worker(args):
                 o = res["obligations"].setdefault(name, {"instances": 0, "unsat": 0, "sat": 0, "unknown": 0,
                                                          "reached": 0})
                 o["instances"] += 1
+                o["max_s"] = max(o.get("max_s", 0), rec.get("secs", 0))
                 o[rec["result"] if rec["result"] in ("sat", "unsat") else "unknown"] += 1
                 if rec["reach"] == "sat":
                     o["reached"] += 1
@@ -443,6 +444,9 @@ def main(argv=None):
               f"sat={sum(o['sat'] for o in r['obligations'].values())} "
               f"unk={sum(o['unknown'] for o in r['obligations'].values())} "
               f"validated={r['validated']} wall={r['wall_s']:.1f}s ru={r.get('ru')} {tag}")
+        for nm, o in r["obligations"].items():
+            if o.get("max_s", 0) > 10 or o["unknown"]:
+                print(f"    slow/unknown obligation {nm}: max {o.get('max_s')}s unknown={o['unknown']}")
         for u in r["unconfirmed"]:
             print(f"    unconfirmed (model did not reproduce / no replay): {u['obligation']} {u['why']} {u['model']}")
     for k in known.values():
